@@ -283,20 +283,24 @@ def coq_check_property(pid, timeout=1800):
         m2 = re.search(r"make.*\*\*\* \[.*?: (theories/\S+?)\.vo\]", out)
         res["broken"] = m2.group(1) if m2 else target
         return res
-    # parse Print Assumptions blocks from the build output
+    # parse Print Assumptions blocks from the build output: the k-th block belongs to the
+    # k-th "Print Assumptions <name>." command of the property file
+    names = re.findall(r"Print Assumptions\s+([A-Za-z0-9_']+)\s*\.", txt)
+    tail = out[out.rfind("COQC theories/Properties_%s.v" % pid):]
+    blocks, cur = [], None
+    for line in tail.split("\n"):
+        if line.strip() == "Closed under the global context":
+            blocks.append([]); cur = None
+        elif line.strip() == "Axioms:":
+            cur = []; blocks.append(cur)
+        elif cur is not None:
+            m = re.match(r"^([A-Za-z_][A-Za-z0-9_.']*)(\s|$)", line)
+            if m and not line.startswith(("make", "COQC")):
+                cur.append(m.group(1))
     ass = {}
-    cur = None
-    for line in out.split("\n"):
-        m = re.match(r"^Assumptions of ([A-Za-z0-9_']+):", line)
-        if m:
-            cur = m.group(1); ass[cur] = []; continue
-        if cur is not None:
-            if line.startswith("COQC") or line.startswith("make") or line.startswith("Assumptions of"):
-                cur = None
-            elif re.match(r"^[A-Za-z_][A-Za-z0-9_.']* :", line):
-                ass[cur].append(line.split(" :")[0].strip())
-            elif line.strip() == "Closed under the global context":
-                pass
+    for k, nme in enumerate(names):
+        ass[nme] = blocks[k] if k < len(blocks) else ["<not captured>"]
+    res["unprinted"] = [t for t in theorems if t not in names]
     res["assumptions"] = ass
     res["discharged"] = len(theorems)
     res["ok"] = True
